@@ -112,8 +112,17 @@ inline std::string frameDiffKind(const FrSnap& want, const FrSnap& got) {
     for (size_t i = 0; i < want.pts.size(); ++i) if (!want.pts[i].eqXYZ(got.pts[i])) return "point_xyz";
     return "analog";
 }
-inline void tr_C06(const WSnap& pre, const CallInfo& ci, Outcome oc, const WSnap& post, Sink& out) {
+inline void tr_C06(const WSnap& pre, const CallInfo& ci, Outcome oc, const WSnap& post, Sink& out, const char* prop = "C06") {
     if (oc != OK) return;
+    if (ci.kind == K_REG_BUILD && ci.dev == "intent" && ci.reg >= 0 && post.regset[ci.reg]) {   // the caller's own frame, assembled point by point
+        std::string d = frameDiffKind(ci.given, post.reg[ci.reg]);
+        if (!d.empty()) V(out, prop, "assembled_frame_loses_content/" + d, "a frame assembled through Point/Points/Channel/SubFrame/Analogs does not hold the values that were put in");
+        return;
+    }
+    if (std::string(prop) != "C06") {   // C01 rides on the frame clause only: "every point keeps its name, x, y, z and residual"
+        if (ci.kind == K_FRAME) { size_t n = pre.o.frames.size(), tgt = ci.append ? n : ci.idx; if (tgt < post.o.frames.size()) { std::string d = frameDiffKind(ci.given, post.o.frames[tgt]); if (!d.empty()) V(out, prop, "assembled_content_lost_on_store/" + d, "stored frame differs from the values handed over"); } }
+        return;
+    }
     size_t n = pre.o.frames.size();
     if (ci.kind == K_FRAME) {
         std::string mode = ci.append ? "append" : (ci.idx < n ? "replace" : "extend");
@@ -135,7 +144,7 @@ inline void tr_C06(const WSnap& pre, const CallInfo& ci, Outcome oc, const WSnap
         }
     } else if (ci.kind == K_POINT_NAME || ci.kind == K_ANALOG_NAME) {
         if (post.o.frames.size() != n) { V(out, "C06", "column/name/frame_count", ""); return; }
-        std::string nm = ci.name; ezc3d::removeTrailingSpaces(nm);
+        std::string nm = ci.name; vf::trimSpaces(nm);
         for (size_t f = 0; f < n; ++f) {
             const FrSnap& a = pre.o.frames[f]; const FrSnap& b = post.o.frames[f]; bool bad = false;
             if (ci.kind == K_POINT_NAME) {
@@ -215,14 +224,14 @@ inline Verdict expect_C07(const WSnap& pre, const CallInfo& ci) {
         return v;
     }
     if (ci.kind == K_POINT_NAME && n > 0) {
-        std::string nm = ci.name; ezc3d::removeTrailingSpaces(nm);
+        std::string nm = ci.name; vf::trimSpaces(nm);
         if (has(labels, nm)) { v.t = Verdict::MUST_REFUSE; v.classes.insert(INVALID_ARGUMENT); v.why = "name exists"; return v; }
         std::vector<std::string> existing; for (auto& f : o.frames) for (auto& p : f.pts) existing.push_back(p.name);
         if (!has(existing, nm)) { v.t = Verdict::MUST_ACCEPT; v.why = "new point name on existing frames"; }
         return v;
     }
     if (ci.kind == K_ANALOG_NAME && n > 0) {
-        std::string nm = ci.name; ezc3d::removeTrailingSpaces(nm);
+        std::string nm = ci.name; vf::trimSpaces(nm);
         if (has(alabels, nm)) { v.t = Verdict::MUST_REFUSE; v.classes.insert(INVALID_ARGUMENT); v.why = "name exists"; return v; }
         size_t spf = o.h.subPerFrame; bool ok = spf >= 1; for (auto& f : o.frames) if (f.subs.size() != spf) ok = false;
         std::vector<std::string> existing; for (auto& f : o.frames) for (auto& s : f.subs) for (auto& c : s) existing.push_back(c.name);
